@@ -8,7 +8,7 @@ check("C15", "exploration",
       "recorded hook events of every random run (SetLen argument = initialised slots <= capacity, cursor inside the token "
       "array). TLC also model-checks the capacity question itself: 5 + 2*tokens is violated at 9-11 tokens, 5 + 4*tokens "
       "holds up to the bound. Sampled beyond the bounds (arbitrary bytes, soups, programs of every density, deep nesting, "
-      "mutated corpus, <= 256 KiB).",
+      "mutated corpus, <= 256 KiB). The recogniser of the documented grammar (SyntaxRules.tla: pushdown recogniser over token classes, verdict valid | unc | invalid(lo, hi); all class sequences up to the bound in 7 contexts, every single-token fault of the derived modules, mutated corpus files validated by TLC on the real token stream) contributes the discrepancies that belong to this property.",
       "Trusted: the harness supervisor (crash / timeout attribution per input), TLC, the annotated grammar (read off "
       "parser.rs; its node predictions are compared with the real parser on every emitted derivation: MODEL-DRIFT if they "
       "differ). Memory safety is decided through the buffer protocol and crashes only; a silent out-of-bounds read is "
